@@ -178,6 +178,17 @@ def run(ctx):
                 fld = struct.pack('<HH', rng.choice([2, 2, 2, 3, 0]), rng.choice([20, max(0, pph_len - 12), 0])) + bytes(rng.choice([0, 1, 0xff]) if i == 8 else rng.randrange(256) for i in range(40))
                 add('PPI', (bytes([0, 0]) + struct.pack('<HI', pph_len, dlt) + fld)[:max(pph_len, 8)] + bytes(rng.randrange(256) for _ in range(tail)))
                 n_opt += 1
+    # truncated DNS responses (TC set, section counts larger than what is there), cut at every length: the getters must not walk
+    # past the record data
+    for rep in range(3 if quick else 30):
+        hdr = struct.pack('>HHHHHH', 0x4242, 0x8380, 1, rng.randrange(1, 4), rng.randrange(0, 3), rng.randrange(0, 3))
+        nm = b'\x03www\x07example\x03com\x00'
+        body = nm + struct.pack('>HH', 1, 1)
+        for _ in range(rng.randrange(1, 3)):
+            body += b'\xc0\x0c' + struct.pack('>HHIH', 1, 1, 60, 4) + bytes(rng.randrange(256) for _ in range(4))
+        for cut in range(12, len(hdr + body) + 1):
+            add('DNS', (hdr + body)[:cut])
+            n_opt += 1
     # DNS names whose decoded length sits around the 255-character limit, plain and reached through a pointer
     for total in range(248, 262):
         for shape in range(3 if quick else 8):
